@@ -29,6 +29,7 @@ void sym_note(const char* key, unsigned long value);
 // one global output buffer / one input stream per path
 unsigned long sym_out_len();
 unsigned long sym_in_pos();
+bool sym_in_eof(); // a read ran past the end of the input since the last sym_in_from_out
 void sym_in_from_out(unsigned long a, unsigned long b);
 void sym_in_rewind();
 bool sym_out_equal(unsigned long a0, unsigned long a1, unsigned long b0, unsigned long b1);
